@@ -421,7 +421,27 @@ def r06_10(chk):
     chk.floor("R06.10", 0, "expected-zero rule with embedded probe")
 
 
+def r06_11(chk):
+    chk.rule("R06.11", "reading back what was written needs the bytes decoded as they were encoded: in util.io.open_ (i) a caller's explicit `encoding` is used -- the decision to guess tests the value popped from kwargs, not the presence of a key that was just popped (a test that can never succeed); (ii) the encoding is guessed (chardet.detect) only for data that is not plain ASCII -- chardet reads ASCII runs like '~{AB~}' as HZ-GB-2312 escape sequences, so a printable-ASCII name came back as a Chinese character")
+    m = chk.repo.module("util/io.py")
+    fn = m.func("open_")
+    popped = {}
+    for c in walk_no_nested(fn):
+        if isinstance(c, ast.Call) and isinstance(c.func, ast.Attribute) and c.func.attr == "pop" and isinstance(c.func.value, ast.Name) and c.args and isinstance(c.args[0], ast.Constant):
+            popped[(c.func.value.id, c.args[0].value)] = c.lineno
+    dead = [t for t in walk_no_nested(fn) if isinstance(t, ast.Compare) and len(t.ops) == 1 and isinstance(t.ops[0], (ast.In, ast.NotIn)) and isinstance(t.left, ast.Constant) and isinstance(t.comparators[0], ast.Name) and (t.comparators[0].id, t.left.value) in popped and t.lineno > popped[(t.comparators[0].id, t.left.value)]]
+    chk.decide(not dead, "R06.11", key(m, "open_", "explicit encoding honoured"), m.loc(dead[0] if dead else fn), "the guess is decided on the popped value", f"`{norm(dead[0]) if dead else ''}` tests for a key that was popped from the same mapping a few lines earlier: it can never be found, so the encoding the caller passed is always replaced by a guess")
+    det = [c for c in walk_no_nested(fn) if isinstance(c, ast.Call) and (call_name(c) or "").split(".")[-1] == "detect"]
+    if not det:
+        chk.ok("R06.11", key(m, "open_", "no guessing for ASCII data"), m.loc(fn), "no encoding guess at all", nontrivial=False)
+    for c in det:
+        guarded = any(isinstance(i, (ast.IfExp, ast.If)) and "isascii" in norm(i.test) and any(x is c for x in ast.walk(i)) for i in ast.walk(fn))
+        chk.decide(guarded, "R06.11", key(m, "open_", "no guessing for ASCII data"), m.loc(c), "detect(...) only when the sample is not ASCII", f"`{norm(c)}` guesses the encoding of every file, plain ASCII included: chardet classifies the ASCII name '~{{AB~}}' as HZ-GB-2312 and the GDE / PAML / PHYLIP files written by cogent3 are read back with another name (or fail to load)")
+    chk.floor("R06.11", 2, "explicit encoding; ASCII not guessed")
+
+
 def run(chk):
+    r06_11(chk)
     r06_10(chk)
     r06_9(chk)
     r06_8(chk)
